@@ -14,7 +14,7 @@ if [ "$2" = own ]; then
   cat > $D/env.sh <<EOF
 export MECH_CACHE=$D/cache
 export MECH_SCRATCH=$D/scratch
-export MECH_FACTS_KEEP=5
+export MECH_FACTS_KEEP=12
 export VERIF_CLONE=$D/verif
 EOF
 else
